@@ -346,6 +346,53 @@ def gen_ordered_file(rng, corrupt=0.0):
     return header + [col] + body
 
 
+STREAM_SCRIPT = r"""
+import json, sys
+sys.path.insert(0, sys.argv[1])
+from maflib.reader import MafReader
+from maflib.validation import ValidationStringency as VS
+try:
+    rd = MafReader.reader_from("/dev/stdin", validation_stringency=getattr(VS, sys.argv[2]))
+    n = sum(1 for _r in rd)
+    print(json.dumps({"records": n}))
+except Exception as e:
+    print(json.dumps({"exc": type(e).__name__}))
+"""
+
+
+def eval_read_once(lines, mode):
+    """The path names a read-once stream (/dev/stdin fed by a pipe; a named pipe behaves alike): reader_from still yields
+    one record per line after the column line - the stream is opened and read once."""
+    import json
+    import subprocess
+    import sys
+    from ..common import REPO
+    where = {"kind": "read-once-stream", "lines": lines, "mode": mode}
+    p = subprocess.run([sys.executable, "-c", STREAM_SCRIPT, REPO, mode], input="".join(l + "\n" for l in lines), stdout=subprocess.PIPE, stderr=subprocess.PIPE, text=True, timeout=120)
+    try:
+        res = json.loads(p.stdout.strip().splitlines()[-1])
+    except Exception:  # noqa
+        return [dict(where, what="reading /dev/stdin through reader_from failed: %s" % (p.stderr.strip().splitlines() or ["no output"])[-1][:200])]
+    want = body_count(lines)
+    if "exc" in res:
+        if mode == "Strict" and res["exc"] == "MafFormatException":
+            return []
+        return [dict(where, what="reading a read-once stream (reader_from('/dev/stdin')) failed with %s" % res["exc"])]
+    if res["records"] != want:
+        return [dict(where, what="reader_from on a read-once stream yielded %d records for %d lines after the column line" % (res["records"], want))]
+    return []
+
+
+def read_once_cases(ctx, out):
+    rng = ctx.rng("c16-stream")
+    for _ in range(ctx.scale(3, 20)):
+        lines = ["#version gdc-1.0.0", "#annotation.spec lab-x", "a\tb\tc"] + ["%d\tx\ty" % k for k in range(rng.randrange(1, 6))]
+        out.evaluations += 1
+        out.failures += eval_read_once(lines, rng.choice(["Silent", "Lenient"]))
+        out.distribution["reader_from on a read-once stream"] += 1
+        out.nontrivial.add(("read-once", tuple(lines)))
+
+
 def run(ctx):
     out = Outcome()
     out.rule = ("random files over an adversarial alphabet (pragmas in any position, blank lines, wrong counts, invalid fields, control / non-ASCII characters, "
@@ -404,6 +451,7 @@ def run(ctx):
             out.nontrivial.add(repr((lines, sorted(how_of(r).items()))) if "via" in r else repr(lines))
         if len(out.samples) < 4 and body_count(lines) > 1:
             out.sample({"lines": [l[:80] for l in lines[:6]], "mode": mode, "outcome": exc or "completed"})
+    read_once_cases(ctx, out)
     return out
 
 
@@ -426,6 +474,12 @@ INPUT_KEYS = ("lines", "mode", "via", "consume", "text", "given", "given_norestr
 
 
 def replay_case(ctx, failure):
+    if failure.get("kind") == "read-once-stream" and isinstance(failure.get("lines"), list):
+        fails = eval_read_once(failure["lines"], failure.get("mode", "Silent"))
+        print("replay C16: child interpreter with the %d lines on its standard input; MafReader.reader_from('/dev/stdin', %s) iterated to the end" % (len(failure["lines"]), failure.get("mode", "Silent")))
+        for x in fails:
+            print("  oracle: %s" % x["what"])
+        return fails
     """Re-evaluate the stored failing input on the current implementation; return the list of failure dicts it
     produces now (empty list = the property holds on that input)."""
     lines, mode = failure.get("lines"), failure.get("mode")
